@@ -6,13 +6,16 @@ package main
 
 import (
 	"bufio"
+	"bytes"
 	"encoding/binary"
+	"encoding/hex"
 	"encoding/json"
 	"flag"
 	"fmt"
 	"os"
 	"os/exec"
 	"sort"
+	"strings"
 	"time"
 
 	"github.com/pandatix/go-cvss/verifsim/rt"
@@ -72,6 +75,9 @@ func main() {
 	}
 	nPoints = numPoints
 	pageInit()
+	for _, v := range versions {
+		apis[v].PtrFree() // lay out the value types now, on the main goroutine
+	}
 	switch os.Args[1] {
 	case "run":
 		cmdRun(os.Args[2:])
@@ -81,6 +87,10 @@ func main() {
 		cmdMin(os.Args[2:])
 	case "gen":
 		cmdGen(os.Args[2:])
+	case "dump":
+		cmdDump(os.Args[2:])
+	case "ref":
+		cmdRef()
 	default:
 		fatal("unknown command %q", os.Args[1])
 	}
@@ -96,8 +106,140 @@ func cmdGen(args []string) {
 	os.Stdout.Write(b)
 }
 
+// ------------------------------------------------------------------ pristine reference (O1x)
+//
+// The in-process calm replay of O1 shares the library's package state with the
+// simulated run: a memo or cache poisoned by an earlier call answers the calm
+// replay the same wrong way. The pristine reference evaluates sampled
+// operations in a fresh process, where nothing was called before.
+
+type refItem struct {
+	Ver    int    `json:"v"`
+	Op     Op     `json:"op"`
+	Before string `json:"b"` // hex
+	res    string
+	key    string
+	run    int
+	task   int
+	idx    int
+}
+
+func cmdRef() {
+	sc := bufio.NewScanner(os.Stdin)
+	sc.Buffer(make([]byte, 1<<20), 1<<26)
+	w := bufio.NewWriter(os.Stdout)
+	defer w.Flush()
+	for sc.Scan() {
+		var it refItem
+		if json.Unmarshal(sc.Bytes(), &it) != nil {
+			fmt.Fprintln(w, "3f")
+			continue
+		}
+		b, _ := hex.DecodeString(it.Before)
+		r := rec{ver: it.Ver, op: it.Op, before: string(b)}
+		// hex: results may contain arbitrary bytes, JSON strings may not
+		w.WriteString(hex.EncodeToString([]byte(calmEval(&r))))
+		w.WriteByte('\n')
+	}
+}
+
+// refEval evaluates the items, in the given order, in ONE fresh process and
+// returns the results (nil on trouble: the oracle then stays silent).
+func refEval(items []*refItem) []string {
+	var in bytes.Buffer
+	for _, it := range items {
+		b, _ := json.Marshal(it)
+		in.Write(b)
+		in.WriteByte('\n')
+	}
+	cmd := exec.Command(os.Args[0], "ref")
+	cmd.Stdin = &in
+	cmd.Env = append(os.Environ(), "GORACE=halt_on_error=0 atexit_sleep_ms=0 log_path=/dev/null")
+	out, err := cmd.Output()
+	if err != nil {
+		return nil
+	}
+	var res []string
+	sc := bufio.NewScanner(bytes.NewReader(out))
+	sc.Buffer(make([]byte, 1<<20), 1<<26)
+	for sc.Scan() {
+		b, err := hex.DecodeString(sc.Text())
+		if err != nil {
+			return nil
+		}
+		res = append(res, string(b))
+	}
+	if len(res) != len(items) {
+		return nil
+	}
+	return res
+}
+
+var refCompared, refMismatchUnconfirmed int64
+
+// refCheck compares recorded results with a fresh process. The batch is
+// evaluated in reverse order of recording (so that an operation is not
+// preceded by the ones that preceded it in the simulated run); a mismatch is
+// confirmed by evaluating that single operation alone in another fresh process.
+func refCheck(items []*refItem) []*refItem {
+	if len(items) == 0 {
+		return nil
+	}
+	rev := make([]*refItem, len(items))
+	for i, it := range items {
+		rev[len(items)-1-i] = it
+	}
+	res := refEval(rev)
+	if res == nil {
+		return nil
+	}
+	var bad []*refItem
+	for i, it := range rev {
+		refCompared++
+		if res[i] == it.res {
+			continue
+		}
+		single := refEval([]*refItem{it})
+		if single != nil && single[0] != it.res {
+			it.key += " [fresh process: " + trunc(single[0]) + "]"
+			bad = append(bad, it)
+		} else {
+			refMismatchUnconfirmed++
+		}
+	}
+	return bad
+}
+
+func recToRef(r *rec, run int) *refItem {
+	return &refItem{Ver: r.ver, Op: r.op, Before: hex.EncodeToString([]byte(r.before)), res: r.res, key: r.key, run: run, task: r.task, idx: r.idx}
+}
+
+// cmdDump regenerates the plans a worker executed up to a given run: the
+// fallback replay when a violation depends on state the library accumulated
+// over earlier runs of the same process.
+func cmdDump(args []string) {
+	fs := flag.NewFlagSet("dump", flag.ExitOnError)
+	prop := fs.String("prop", "C14", "")
+	seed := fs.Uint64("seed", 1, "")
+	wk := fs.Int("worker", 0, "")
+	upto := fs.Int("upto", 0, "")
+	class := fs.String("class", "", "")
+	out := fs.String("out", "", "")
+	cold := fs.Bool("cold", false, "")
+	fs.Parse(args)
+	pf := planFile{Prop: *prop, Class: *class}
+	for i := 0; i <= *upto; i++ {
+		pf.Plans = append(pf.Plans, genPlanOpt(mixSeed(*seed, uint64(*wk), uint64(i)), *prop, *cold))
+	}
+	b, _ := json.Marshal(pf)
+	if err := os.WriteFile(*out, b, 0o644); err != nil {
+		fatal("%v", err)
+	}
+}
+
 type workerStats struct {
 	Type        string         `json:"type"`
+	Cold        bool           `json:"cold"`
 	Worker      int            `json:"worker"`
 	Seed        uint64         `json:"seed"`
 	Prop        string         `json:"prop"`
@@ -115,6 +257,7 @@ type workerStats struct {
 	O1Distinct  int64          `json:"o1_distinct_keys"`
 	O1Resets    int            `json:"o1_resets"`
 	EqCompared  int64          `json:"eq_compared"`
+	RefCompared int64          `json:"ref_compared"`
 	EqStates    int            `json:"eq_states"`
 	PointsHit   []int          `json:"points_hit,omitempty"`     // ids of points executed under the scheduler
 	PreemptSites []int         `json:"preempt_sites,omitempty"`  // ids of points at which a preemption fired
@@ -134,6 +277,8 @@ type violationMsg struct {
 	Worker int       `json:"worker"`
 	Run    int       `json:"run"`
 	Seed   uint64    `json:"seed"`
+	BaseSeed uint64  `json:"base_seed"`
+	Cold   bool      `json:"cold"`
 	V      Violation `json:"violation"`
 	File   planFile  `json:"file"`
 }
@@ -147,12 +292,13 @@ func cmdRun(args []string) {
 	secs := fs.Float64("secs", 0, "stop after this many seconds (0: no limit)")
 	maxViol := fs.Int("maxviol", 3, "")
 	outDir := fs.String("outdir", "", "directory for hash-set files")
+	cold := fs.Bool("cold", false, "short-lived process: bias the first runs towards contention")
 	fs.Parse(args)
 	if _, ok := propWeights[*prop]; !ok {
 		fatal("unknown property %q", *prop)
 	}
 	w := bufio.NewWriter(os.Stdout)
-	st := &workerStats{Type: "stats", Worker: *wk, Seed: *seed, Prop: *prop, Policies: map[string]int64{}, TaskHist: map[int]int64{}, Aborts: map[string]int64{}}
+	st := &workerStats{Type: "stats", Cold: *cold, Worker: *wk, Seed: *seed, Prop: *prop, Policies: map[string]int64{}, TaskHist: map[int]int64{}, Aborts: map[string]int64{}}
 	start := time.Now()
 	distinct := map[uint64]struct{}{}
 	sigs := map[uint64]struct{}{}
@@ -160,6 +306,7 @@ func cmdRun(args []string) {
 	pointHit := make([]bool, nPoints)
 	preSite := map[int]bool{}
 	runHash := uint64(14695981039346656037)
+	var refQueue []*refItem
 	const capSet = 1 << 20
 	for i := int64(0); ; i++ {
 		if *runs > 0 && i >= *runs {
@@ -169,7 +316,7 @@ func cmdRun(args []string) {
 			break
 		}
 		s := mixSeed(*seed, uint64(*wk), uint64(i))
-		p := genPlan(s, *prop)
+		p := genPlanOpt(s, *prop, *cold)
 		cover := i%8 == 0
 		res, viol := evalRun(p, int(i), false, cover)
 		st.Runs++
@@ -207,6 +354,24 @@ func cmdRun(args []string) {
 		for _, id := range res.PreemptAt {
 			preSite[id] = true
 		}
+		// O1x: sample operations for the pristine reference
+		if *prop == "C14" {
+			rr := rng{s: s ^ 0x5bd1e9955bd1e995}
+			for k := 0; k < 6 && len(res.recs) > 0; k++ {
+				r := &res.recs[rr.intn(len(res.recs))]
+				if r.calmable {
+					refQueue = append(refQueue, recToRef(r, int(i)))
+				}
+			}
+			last := (*runs > 0 && i+1 >= *runs)
+			if len(refQueue) >= 192 || last {
+				for _, it := range refCheck(refQueue) {
+					viol = append(viol, Violation{Prop: "C14", Class: "inconsistent-result", Task: it.task, Op: it.idx,
+						Detail: fmt.Sprintf("%s gave %q under the simulated schedule and something else in a fresh process", it.key, trunc(it.res)), NeedsRun: it.run})
+				}
+				refQueue = refQueue[:0]
+			}
+		}
 		if len(viol) > 0 {
 			st.Violations++
 			v := viol[0]
@@ -215,16 +380,30 @@ func cmdRun(args []string) {
 			}
 			pf := planFile{Prop: *prop, Class: v.Class}
 			if v.NeedsRun >= 0 && int64(v.NeedsRun) != i {
-				pf.Plans = append(pf.Plans, genPlan(mixSeed(*seed, uint64(*wk), uint64(v.NeedsRun)), *prop))
+				pf.Plans = append(pf.Plans, genPlanOpt(mixSeed(*seed, uint64(*wk), uint64(v.NeedsRun)), *prop, *cold))
 			}
-			pf.Plans = append(pf.Plans, p)
-			emit(w, violationMsg{Type: "violation", Worker: *wk, Run: int(i), Seed: s, V: v, File: pf})
+			if !strings.Contains(v.Detail, "in a fresh process") || len(pf.Plans) == 0 {
+				pf.Plans = append(pf.Plans, p)
+			}
+			emit(w, violationMsg{Type: "violation", Worker: *wk, Run: int(i), Seed: s, BaseSeed: *seed, Cold: *cold, V: v, File: pf})
 			if st.Violations >= *maxViol {
 				break
 			}
 		}
 	}
+	if *prop == "C14" && len(refQueue) > 0 && st.Violations < *maxViol {
+		for _, it := range refCheck(refQueue) {
+			st.Violations++
+			st.DetViolations++
+			v := Violation{Prop: "C14", Class: "inconsistent-result", Task: it.task, Op: it.idx,
+				Detail: fmt.Sprintf("%s gave %q under the simulated schedule and something else in a fresh process", it.key, trunc(it.res)), NeedsRun: it.run}
+			pf := planFile{Prop: *prop, Class: v.Class, Plans: []*Plan{genPlanOpt(mixSeed(*seed, uint64(*wk), uint64(it.run)), *prop, *cold)}}
+			emit(w, violationMsg{Type: "violation", Worker: *wk, Run: it.run, Seed: mixSeed(*seed, uint64(*wk), uint64(it.run)), BaseSeed: *seed, Cold: *cold, V: v, File: pf})
+			break
+		}
+	}
 	st.Wall = time.Since(start).Seconds()
+	st.RefCompared = refCompared
 	st.O1Compared, st.O1Calm, st.O1Distinct, st.O1Resets = o1Compared, o1Calm, o1Distinct, o1Resets
 	st.EqCompared, st.EqStates = eqCompared, len(eqTable)
 	st.RunHash = fmt.Sprintf("%016x", runHash)
@@ -339,6 +518,9 @@ func cmdExec(args []string) {
 		res, viol := evalRun(p, i, *trace, false)
 		rep.Hashes = append(rep.Hashes, fmt.Sprintf("%016x", res.Hash))
 		if i == len(pf.Plans)-1 {
+			if p.Prop == "C14" && len(viol) == 0 {
+				viol = append(viol, pristineAll(res)...)
+			}
 			rep.Violations = append(rep.Violations, viol...)
 			rep.Trace = res.Trace
 		}
@@ -388,7 +570,7 @@ func (m *minimiser) fails1(plans []*Plan) bool {
 		fatal("%v", err)
 	}
 	cmd := exec.Command(os.Args[0], "exec", "-in", m.tmp)
-	cmd.Env = append(os.Environ(), "GORACE=halt_on_error=0 log_path=/dev/null")
+	cmd.Env = append(os.Environ(), "GORACE=halt_on_error=0 atexit_sleep_ms=0 log_path=/dev/null")
 	out, err := cmd.Output()
 	if err != nil && len(out) == 0 {
 		return false // crashed: not the same failure
@@ -439,9 +621,24 @@ func cmdMin(args []string) {
 		fmt.Println(`{"type":"min","reproduced":false}`)
 		os.Exit(3)
 	}
-	// 1. earlier runs needed at all?
+	// 1. earlier runs needed at all? which?
 	if len(plans) > 1 && m.fails(plans[len(plans)-1:]) {
 		plans = plans[len(plans)-1:]
+	}
+	if len(plans) > 2 {
+		pre := append([]*Plan{}, plans[:len(plans)-1]...)
+		lastP := plans[len(plans)-1]
+		for chunk := (len(pre) + 1) / 2; chunk >= 1; chunk /= 2 {
+			for i := 0; i+chunk <= len(pre); {
+				cand := append(append([]*Plan{}, pre[:i]...), pre[i+chunk:]...)
+				if m.fails(append(append([]*Plan{}, cand...), lastP)) {
+					pre = cand
+				} else {
+					i += chunk
+				}
+			}
+		}
+		plans = append(pre, lastP)
 	}
 	last := plans[len(plans)-1]
 	prefix := plans[:len(plans)-1]
@@ -628,4 +825,46 @@ func compactPlan(p *Plan) *Plan {
 	}
 	q.Tasks, q.Cells, q.Preempt = tasks, cells, pre
 	return q
+}
+
+// pristineAll (replay mode): every operation of the run is compared with its
+// evaluation alone in a fresh process (one process per distinct operation,
+// a few at a time).
+func pristineAll(res *runResult) []Violation {
+	seen := map[string]bool{}
+	var items []*refItem
+	for i := range res.recs {
+		r := &res.recs[i]
+		if !r.calmable || seen[r.key+"\x00"+r.res] {
+			continue
+		}
+		seen[r.key+"\x00"+r.res] = true
+		items = append(items, recToRef(r, 0))
+	}
+	out := make([]string, len(items))
+	sem := make(chan struct{}, 8)
+	done := make(chan int, len(items))
+	for i := range items {
+		go func(i int) {
+			sem <- struct{}{}
+			if r := refEval([]*refItem{items[i]}); r != nil {
+				out[i] = r[0]
+			} else {
+				out[i] = items[i].res
+			}
+			<-sem
+			done <- i
+		}(i)
+	}
+	for range items {
+		<-done
+	}
+	var v []Violation
+	for i, it := range items {
+		if out[i] != it.res {
+			v = append(v, Violation{Prop: "C14", Class: "inconsistent-result", Task: it.task, Op: it.idx,
+				Detail: fmt.Sprintf("%s gave %q under the simulated schedule and %q in a fresh process", it.key, trunc(it.res), trunc(out[i])), NeedsRun: -1})
+		}
+	}
+	return v
 }
